@@ -73,13 +73,26 @@ def build_argv(spec: dict[str, Any], root: str) -> list[str]:
         return ["x816"] + [a.replace("$ROOT", root) for a in spec["argv"]]
     src = _p(spec["src"], spec, root)
     out = _p(spec["out"], spec, root)
-    opts: list[list[str]] = [] if spec.get("no_output_opt") else [["-o", out]]
+    # documented spellings only (no argparse prefix abbreviations): seeded by spec["argv_style"]
+    import random as _random
+
+    st = _random.Random(spec["argv_style"]) if spec.get("argv_style") is not None else None
+
+    def spell(short: str, long: str | None, value: str) -> list[str]:
+        if st is None:
+            return [short, value]
+        forms = [[short, value], [short + value]]
+        if long:
+            forms += [[long, value], [long + "=" + value]]
+        return st.choice(forms)
+
+    opts: list[list[str]] = [] if spec.get("no_output_opt") else [spell("-o", "--output", out)]
     if spec.get("verbose"):
         opts.append(["--verbose"])
-    if spec.get("format") is not None:
-        opts.append(["-f", spec["format"]])
-    if spec.get("mapping") is not None:
-        opts.append(["-m", spec["mapping"]])
+    if spec.get("format") is not None and not (st is not None and spec["format"] == "ips" and st.random() < 0.3):
+        opts.append(spell("-f", None, spec["format"]))  # "-f ips" is the default and may be left out
+    if spec.get("mapping") is not None and not (st is not None and spec["mapping"] == "low" and st.random() < 0.3):
+        opts.append(spell("-m", None, spec["mapping"]))  # so is "-m low"
     if spec.get("copier"):
         opts.append(["--copier-header"])
     if spec.get("dump_symbols"):
@@ -88,17 +101,18 @@ def build_argv(spec: dict[str, Any], root: str) -> list[str]:
     ordered = [opts[i] for i in order if i < len(opts)]
     ordered += [o for i, o in enumerate(opts) if i not in order]
     defines = [f"{k}={v}" for k, v in (spec.get("defines") or [])]
+    dflag = "-D" if st is None or st.random() < 0.6 else "--defines"
     argv = ["x816"]
     if spec.get("positional_first", True):
         argv.append(src)
         for o in ordered:
             argv += o
         if defines:
-            argv += ["-D"] + defines
+            argv += [dflag] + defines
     else:
         # -D takes one-or-more values: always follow it with another option
         if defines:
-            argv += ["-D"] + defines
+            argv += [dflag] + defines
         for o in ordered:
             argv += o
         argv.append(src)
@@ -250,6 +264,15 @@ def run_exec(root: str, spec: dict[str, Any], roles: dict[str, str], knobs: dict
         else:
             out["ret"] = value if isinstance(value, (int, type(None))) else repr(value)
             out["ok"] = value == 0 and value is not None and value is not False
+    if entry == "cli" and exc is not None:
+        # the command has ended (SystemExit or an escaping exception): what its frames still reference is
+        # released by a real interpreter on its way out, so release it before looking at the files
+        import gc
+        import traceback
+
+        traceback.clear_frames(exc.__traceback__)
+        exc.__traceback__ = None
+        gc.collect()
     out["announced"] = cap.announced_success()
     out["blocks"] = writer.blocks
     out["writer_fired"] = writer.fired
